@@ -1634,6 +1634,9 @@ async fn ms_case(line: &str, ex: Rc<RefCell<Exec>>) -> String {
     let mut held: Vec<compio_driver::BufferRef> = vec![];
     let mut hold = false;
     let mut sent: VecDeque<u8> = VecDeque::new();
+    // `z`: poll the stream to its end, then (stream dropped) read the socket with plain reads
+    let mut drained = false;
+    let mut want_rest = false;
     macro_rules! run {
         ($b:expr) => {{
             let mut rd = $b;
@@ -1655,6 +1658,32 @@ async fn ms_case(line: &str, ex: Rc<RefCell<Exec>>) -> String {
                     b'c' => {
                         ct.clone().cancel();
                         compio_runtime::time::sleep(Duration::from_millis(2)).await;
+                    }
+                    b'z' => {
+                        want_rest = true;
+                        for _ in 0..64 {
+                            let t = match compio_runtime::time::timeout(Duration::from_millis(300), st.next()).await {
+                                Err(_) => "pending".to_string(),
+                                Ok(None) => "end".to_string(),
+                                Ok(Some(Err(e))) => err_str(&e),
+                                Ok(Some(Ok(buf))) => {
+                                    let got = buf.to_vec();
+                                    let exp: Vec<u8> = sent.iter().take(got.len()).copied().collect();
+                                    if exp != got {
+                                        ex.borrow_mut().fail("C14:stream-mismatch", format!("{line}: multishot item {} but the peer sent {}", hex(&got), hex(&exp)));
+                                    }
+                                    let k = got.len().min(sent.len());
+                                    sent.drain(..k);
+                                    format!("item:{}", hex(&got))
+                                }
+                            };
+                            let stop = t == "end" || t == "pending";
+                            drained = t == "end";
+                            toks.push(t);
+                            if stop {
+                                break;
+                            }
+                        }
                     }
                     b'h' => hold = true,
                     b'r' => {
@@ -1693,6 +1722,29 @@ async fn ms_case(line: &str, ex: Rc<RefCell<Exec>>) -> String {
         S::Unix(s) => run!(s),
     }
     drop(held);
+    if want_rest {
+        // the stream is gone; whatever the peer sent and the stream did not yield must still be in the socket
+        compio_runtime::time::sleep(Duration::from_millis(3)).await;
+        let mut rest: Vec<u8> = vec![];
+        loop {
+            let r = compio_runtime::time::timeout(Duration::from_millis(30), async {
+                on!(&b, x => { let mut x = x; x.read(Vec::with_capacity(4096)).await })
+            })
+            .await;
+            match r {
+                Ok(BufResult(Ok(n), buf)) if n > 0 => rest.extend_from_slice(&buf[..n]),
+                _ => break,
+            }
+        }
+        let missing: Vec<u8> = sent.iter().copied().collect();
+        if drained && rest != missing {
+            ex.borrow_mut().fail(
+                "C14:bytes-lost-after-cancel",
+                format!("{line}: the stream ended; sent and not yielded: {}, readable afterwards with plain reads: {}", hex(&missing), hex(&rest)),
+            );
+        }
+        toks.push(format!("rest:{}", hex(&rest)));
+    }
     toks.join(" ")
 }
 
@@ -1777,7 +1829,7 @@ fn exec(case: &Case) -> Exec {
             "recv" | "drecv" => o.starts_with("n=") && !o.starts_with("n=0 "),
             "dpre" => o.contains("| n="),
             "recvm" | "drecvm" => o.starts_with("some "),
-            "mrecv" | "dmulti" => !o.is_empty() && !o.starts_with('-') && !o.starts_with("idle") && !o.starts_with("err"),
+            "mrecv" | "mrecva" | "dmulti" => !o.is_empty() && !o.starts_with('-') && !o.starts_with("idle") && !o.starts_with("err"),
             "conc" => !o.starts_with("a>b 0 ") || !o.contains("b>a 0 "),
             "accept" => o.starts_with("ids=0"),
             "rmo" => o.starts_with("data="),
@@ -1834,7 +1886,7 @@ fn gen_shape(rng: &mut Rng, max: usize, allow_prefill: bool) -> String {
 
 fn gen_lock_stream(rng: &mut Rng, idx: usize, tp: &str, drv: &str) -> Case {
     let nbufs = *rng.pick(&[1u16, 2, 4, 8]);
-    let buflen = *rng.pick(&[16usize, 64, 256, 4096]);
+    let buflen = *rng.pick(&[16usize, 64, 256, 256, 4096]);
     let mut lines = vec![format!("open {tp} {drv} {nbufs} {buflen}")];
     let nops = rng.range(3, 14);
     let mut pend = [0usize; 2];
@@ -1862,8 +1914,13 @@ fn gen_lock_stream(rng: &mut Rng, idx: usize, tp: &str, drv: &str) -> Case {
                 pend[d] = pend[d].saturating_sub(if len == 0 { buflen } else { len.min(buflen) });
             }
             8 => {
-                let len = *rng.pick(&[0usize, 0, 7, 100000]);
-                lines.push(format!("mrecv {pn} {len}"));
+                if buflen >= 256 && rng.chance(1, 2) {
+                    let clen = *rng.pick(&[0usize, 13, 20, 33, 64, 1]);
+                    lines.push(format!("mrecva {pn} {clen}"));
+                } else {
+                    let len = *rng.pick(&[0usize, 0, 7, 100000]);
+                    lines.push(format!("mrecv {pn} {len}"));
+                }
                 pend[1 - p] = 0;
             }
             _ => {
@@ -1906,7 +1963,7 @@ fn gen_lock_dgram(rng: &mut Rng, idx: usize, tp: &str, drv: &str) -> Case {
         let d = 1 - p;
         if pend[d] == 0 && rng.chance(1, 4) {
             // receive first, then send (p receives from the other peer)
-            let rkinds: &[&str] = if tp == "udp" { &["plain", "vec", "from", "fromvec", "msg", "msgvec"] } else { &["plain", "vec"] };
+            let rkinds: &[&str] = if tp == "udp" { &["plain", "vec", "from", "fromvec", "msg", "msgvec", "msg:13", "msgvec:20", "msg:33", "msgvec:1", "msg:20"] } else { &["plain", "vec"] };
             let rkind = *rng.pick(rkinds);
             let max = *rng.pick(&[4usize, 64, 800]);
             let shapes = if rkind.contains("vec") {
@@ -1939,7 +1996,7 @@ fn gen_lock_dgram(rng: &mut Rng, idx: usize, tp: &str, drv: &str) -> Case {
             match rng.below(10) {
                 0..=1 if multi_case => {
                     let kind = *rng.pick(&["multi", "frommulti", "msgmulti"]);
-                    let clen = if kind == "msgmulti" { *rng.pick(&[0usize, 32, 64]) } else { 0 };
+                    let clen = if kind == "msgmulti" { *rng.pick(&[0usize, 32, 64, 1, 13, 20, 33]) } else { 0 };
                     lines.push(format!("dmulti {pn} {kind} {clen}"));
                     pend[d] = 0;
                 }
@@ -1950,7 +2007,7 @@ fn gen_lock_dgram(rng: &mut Rng, idx: usize, tp: &str, drv: &str) -> Case {
                     pend[d] = pend[d].saturating_sub(1);
                 }
                 _ => {
-                    let kinds: &[&str] = if tp == "udp" { &["plain", "vec", "from", "fromvec", "msg", "msgvec"] } else { &["plain", "vec"] };
+                    let kinds: &[&str] = if tp == "udp" { &["plain", "vec", "from", "fromvec", "msg", "msgvec", "msg:13", "msgvec:20", "msg:33", "msgvec:1", "msg:20"] } else { &["plain", "vec"] };
                     let kind = *rng.pick(kinds);
                     let max = *rng.pick(&[4usize, 64, 800, 7000]);
                     let shapes = if kind.contains("vec") {
@@ -2050,7 +2107,7 @@ fn gen_rmo(rng: &mut Rng, idx: usize) -> Case {
     let buflen = 512usize;
     let mut lines = vec![format!("rmopen {buflen}")];
     for _ in 0..rng.range(4, 10) {
-        let clen = *rng.pick(&[0usize, 0, 16, 24, 64, 200]);
+        let clen = *rng.pick(&[0usize, 0, 16, 24, 64, 200, 1, 13, 20, 33]);
         let hostile = rng.chance(1, 2);
         let namelen = *rng.pick(&[0usize, 16, 16, 28, 110, 128]);
         let ctl = rng.below(clen as u64 + 1) as usize;
@@ -2085,6 +2142,30 @@ fn gen_ms(rng: &mut Rng, idx: usize, tp: &str, drv: &str) -> Case {
     let nbufs = *rng.pick(&[1u16, 2, 2, 4]);
     let buflen = *rng.pick(&[8usize, 16, 64]);
     let len = *rng.pick(&[0usize, 0, 5, 1000]);
+    if idx % 3 == 0 {
+        // cancel interleavings: the op is running, data arrives after the reader's last poll, then the
+        // token is cancelled, the reader drains the stream and goes on with plain reads (`z`)
+        let nbufs = *rng.pick(&[2u16, 4, 8]);
+        let chunk = if len == 0 { buflen } else { len.min(buflen) };
+        let mut evs: Vec<String> = vec![];
+        if rng.chance(1, 2) {
+            evs.push(format!("d{}", hex(&rng.bytes(rng.range(1, chunk as u64) as usize))));
+            evs.push("n".into());
+        }
+        evs.push("p".into());
+        for _ in 0..rng.range(1, 2) {
+            evs.push(format!("d{}", hex(&rng.bytes(rng.range(1, chunk as u64) as usize))));
+        }
+        evs.push("c".into());
+        if rng.chance(1, 2) {
+            evs.push(format!("d{}", hex(&rng.bytes(rng.range(1, 40) as usize))));
+        }
+        if rng.chance(1, 3) {
+            evs.push("s".into());
+        }
+        evs.push("z".into());
+        return Case { name: format!("ms-{tp}-{drv}-{idx}"), lines: vec![format!("ms {tp} {drv} {nbufs} {buflen} {len} {}", evs.join(","))] };
+    }
     let chunk = if len == 0 { buflen } else { len.min(buflen) };
     let mut evs: Vec<String> = vec![];
     // bookkeeping that keeps the script away from timing-dependent corners:
